@@ -18,6 +18,10 @@ All theorems are about the model functions executed by `drv_c11` (`parseMeshFile
 `readIndex`/`readInt`/`readQ`, `RawGraph.serialize`/`deserialize`), which the correspondence run ties to
 `MeshFileReader`, `MeshFileWriter`, `Xml::Scanner`, `String::parse` and `Graph::serialize`/`Graph(buffer)`.
 
+The mesh type is a triple (shape, SHAPE dimension, WORLD dimension) as in FEAT's `ConformalMesh<Shape, world_dim>`;
+nine types are supported (`C11.supported_types`), including surfaces in 3D and curves in 2D / 3D.  A node knows its
+world dimension (`Node.wdim`); vertex rows, the `type` / `mesh` header fields and the chart kinds follow it.
+
 Proved here: parser soundness for every input text (accepted ⇒ root mesh, every mesh part and every partition have
 exactly their declared counts, tuple widths and index ranges; a missing child block of a non-empty dimension is never
 accepted), `parse ∘ print ∘ parse = parse` for every accepted file (hence `parse ∘ print = id` on everything the
@@ -34,10 +38,11 @@ open FeatModel.C11
 /-! ## "input that violates its declared counts, dimensions or vertex-index ranges is always rejected" -/
 
 /-- Parser soundness, for every input text: an accepted file yields a root mesh whose entity counts equal the
-    declared sizes, whose vertex rows have the world dimension, whose index tuples have the width of their shape
+    declared sizes, whose vertex rows have the WORLD dimension `n.wdim` of the file's mesh type (which may exceed the
+    shape dimension `dim`: surfaces in 3D, curves in 2D / 3D - see `C11.parser_world_dim`), whose index tuples have the width of their shape
     and whose vertex indices are all below the number of vertices. -/
 theorem C11.parser_soundness (text : Str) (sh : Shape) (dim : Nat) (n : Node) (msh : Mesh)
-    (h : parseMeshFile text = .ok sh dim n) (hm : n.mesh = some msh) : msh.wf sh dim = true :=
+    (h : parseMeshFile text = .ok sh dim n) (hm : n.mesh = some msh) : msh.wf sh dim n.wdim = true :=
   parseMeshFile_mesh_wf text sh dim n msh h hm
 
 /-- the vertex-index range clause spelled out -/
@@ -47,9 +52,50 @@ theorem C11.parser_indices_in_range (text : Str) (sh : Shape) (dim : Nat) (n : N
   parseMeshFile_indices_in_range h hm
 
 /-- the same for the second-generation parse with a fixed mesh type (what `reparse` runs) -/
-theorem C11.parseBody_soundness (sh : Shape) (dim : Nat) (m : Markup) (iline : Nat) (rest : List Str) (n : Node)
-    (msh : Mesh) (h : parseBody sh dim m iline rest = .ok sh dim n) (hm : n.mesh = some msh) : msh.wf sh dim = true :=
-  parseBody_mesh_wf sh dim m iline rest n msh h hm
+theorem C11.parseBody_soundness (sh : Shape) (dim wdim : Nat) (m : Markup) (iline : Nat) (rest : List Str) (n : Node)
+    (msh : Mesh) (h : parseBody sh dim wdim m iline rest = .ok sh dim n) (hm : n.mesh = some msh) :
+    msh.wf sh dim wdim = true :=
+  parseBody_mesh_wf sh dim wdim m iline rest n msh h hm
+
+/-- The world dimension of an accepted file: `(sh, dim, n.wdim)` is one of the nine mesh types the harness
+    instantiates, and every vertex of the root mesh has exactly `n.wdim` coordinates (not `dim`: for a surface mesh
+    in 3D, `dim = 2` and every vertex has 3 coordinates). -/
+theorem C11.parser_world_dim (text : Str) (sh : Shape) (dim : Nat) (n : Node)
+    (h : parseMeshFile text = .ok sh dim n) :
+    supported sh dim n.wdim = true ∧ (∀ m, n.mesh = some m → ∀ v ∈ m.verts, v.length = n.wdim) :=
+  parseMeshFile_world_dim h
+
+/-- `n.wdim` (and `dim`) are the dimensions `read_root_markup` reads from the `mesh` attribute of the root markup -/
+theorem C11.parser_world_dim_from_root (text : Str) (sh : Shape) (dim : Nat) (n : Node)
+    (h : parseMeshFile text = .ok sh dim n) :
+    ∃ m iline rest, readRoot (splitLines text) 0 = .ok (m, iline, rest) ∧
+      rootType iline m = .ok (some (sh, (dim : Int), (n.wdim : Int))) :=
+  parseMeshFile_root_type h
+
+/-- the nine supported mesh types `(shape, shape dimension, world dimension)` -/
+theorem C11.supported_types (sh : Shape) (dim wdim : Nat) :
+    supported sh dim wdim = true ↔
+      (sh = .hyper ∧ dim = 1 ∧ wdim = 1) ∨ (sh = .hyper ∧ dim = 2 ∧ wdim = 2) ∨ (sh = .hyper ∧ dim = 3 ∧ wdim = 3) ∨
+      (sh = .simplex ∧ dim = 2 ∧ wdim = 2) ∨ (sh = .simplex ∧ dim = 3 ∧ wdim = 3) ∨
+      (sh = .hyper ∧ dim = 2 ∧ wdim = 3) ∨ (sh = .simplex ∧ dim = 2 ∧ wdim = 3) ∨
+      (sh = .hyper ∧ dim = 1 ∧ wdim = 2) ∨ (sh = .hyper ∧ dim = 1 ∧ wdim = 3) :=
+  ⟨RT.supported_cases, RT.supported_of_cases⟩
+
+/-- `MeshParser::create`: a `<Mesh type="conformal:<shape>:<d>:<w'>" …>` whose 4th component reads as an integer
+    different from the world dimension of the mesh type being parsed is a content error (the first three components
+    being fine) - the reader never fills a `world_dim`-mesh from a block declared for another world dimension -/
+theorem C11.mesh_header_world_dim_mismatch_rejected (st : St) (line : Nat) (m : Markup) (ty sz a b c d : Str)
+    (wd : Int) (hty : attrOf m "type" = some ty) (hsz : attrOf m "size" = some sz)
+    (hsplit : splitByColon ty = [a, b, c, d]) (ha : a = "conformal".toList) (hb : b = st.shape.name)
+    (hc : readInt c = some (st.dim : Int)) (hd : readInt d = some wd) (hne : wd ≠ (st.wdim : Int)) :
+    meshCreate st line m = .error ⟨.content, line⟩ :=
+  meshCreate_world_dim_mismatch st line m ty sz a b c d wd hty hsz hsplit ha hb hc hd hne
+
+/-- `VerticesParser::content`: a vertex line that does not have exactly `world_dim` coordinates is a content error -/
+theorem C11.vertex_line_wrong_coord_count_rejected (st : St) (line : Nat) (s : Str) (count : Nat)
+    (acc : List (List Rat)) (rest : List Frame) (hs : st.stack = Frame.verts count acc :: rest)
+    (hne : (splitWs s).length ≠ st.wdim) : contentM st line s = .error ⟨.content, line⟩ :=
+  contentM_verts_wrong_coord_count st line s count acc rest hs hne
 
 /-- Mesh parts, for every input text: an accepted file yields parts whose every mapping has exactly the declared
     number of entries (so a `<Mapping>` block missing for a dimension of non-zero size is never accepted), whose own
@@ -128,13 +174,17 @@ theorem C11.parser_chart_links (text : Str) (sh : Shape) (dim : Nat) (n : Node)
   parseMeshFile_chart_links h
 
 /-- the same two for the second-generation parse with a fixed mesh type -/
-theorem C11.reparse_soundness (sh sh' : Shape) (dim dim' : Nat) (text : Str) (n : Node)
-    (h : reparse sh dim text = .ok sh' dim' n) :
+theorem C11.reparse_soundness (sh sh' : Shape) (dim dim' wdim : Nat) (text : Str) (n : Node)
+    (h : reparse sh dim wdim text = .ok sh' dim' n) :
     (∀ np ∈ n.parts, Part.wf sh' dim' np.2) ∧ (∀ p ∈ n.partitions, p.wf) :=
-  ⟨reparse_parts_wf sh sh' dim dim' text n h, reparse_partitions_wf sh sh' dim dim' text n h⟩
+  ⟨reparse_parts_wf sh sh' dim dim' wdim text n h, reparse_partitions_wf sh sh' dim dim' wdim text n h⟩
 
 /-- `wf` is not vacuous: the unit square with four edges and one quadrilateral -/
-example : Mesh.wf .hyper 2 (⟨[4, 4, 1], [[0, 0], [1, 0], [0, 1], [1, 1]],
+example : Mesh.wf .hyper 2 2 (⟨[4, 4, 1], [[0, 0], [1, 0], [0, 1], [1, 1]],
+    [[[0, 1], [2, 3], [0, 2], [1, 3]], [[0, 1, 2, 3]]]⟩ : Mesh) = true := by decide
+
+/-- … also with a world dimension above the shape dimension: the same quadrilateral as a surface in 3D -/
+example : Mesh.wf .hyper 2 3 (⟨[4, 4, 1], [[0, 0, 0], [1, 0, 0], [0, 1, 1], [1, 1, 1]],
     [[[0, 1], [2, 3], [0, 2], [1, 3]], [[0, 1, 2, 3]]]⟩ : Mesh) = true := by decide
 
 /-- model-level totality: the parser returns one of its four outcomes on every text (it is a structurally
@@ -174,53 +224,70 @@ theorem C11.print_parse_print_parse_partial (text : Str) (sh : Shape) (dim : Nat
     with the known type gives the node back -/
 theorem C11.parse_print_reparse_partial (text : Str) (sh : Shape) (dim : Nat) (n : Node)
     (h : parseMeshFile text = .ok sh dim n) (hm : n.mesh = none) (hc : n.charts = []) :
-    parseMeshFile (printMeshFile sh dim n) = .notype ∧ reparse sh dim (printMeshFile sh dim n) = .ok sh dim n :=
+    parseMeshFile (printMeshFile sh dim n) = .notype ∧
+    reparse sh dim n.wdim (printMeshFile sh dim n) = .ok sh dim n :=
   FeatModel.C11.parse_print_reparse text sh dim n h hm hc
 
 /-- Mesh node with a root mesh, any number of mesh parts (mappings, optional own topology, attribute sets) and
-    partitions, every supported mesh type and every size: parsing the written file gives back exactly the node.
+    partitions, every one of the nine supported mesh types `(shape, shape dimension, world dimension)` - hypercube
+    1/1, 2/2, 3/3, simplex 2/2, 3/3, and the embedded types hypercube 2/3, simplex 2/3, hypercube 1/2, 1/3 - and every size: parsing the written file gives back exactly the node.
     Hypotheses: the root mesh is well-formed, names are trimmed and free of `"`, `<`, `>`, newline, counts equal the
     declared sizes, numbers fit their C++ types, parts/attributes are sorted by name, patches are sorted,
     duplicate-free and contain the declared number of elements, no entity count of zero below a non-zero one, every
     mapping index is an entity index of the root mesh (`PartOkFull`, `PartitionOk`, `zeroBelow`, `mapOutOfRange`).  `_partial` w.r.t. the property: charts and `topology="parent"`
     parts are outside the model. -/
-theorem C11.parse_print_node_partial (sh : Shape) (dim : Nat) (m : Mesh) (parts : List (Str × Part))
+theorem C11.parse_print_node_partial (sh : Shape) (dim wdim : Nat) (m : Mesh) (parts : List (Str × Part))
     (partitions : List Partition)
-    (hs : supported sh dim dim = true) (hwf : m.wf sh dim = true) (h64 : ∀ s ∈ m.sizes, s < 2 ^ 64)
+    (hs : supported sh dim wdim = true) (hwf : m.wf sh dim wdim = true) (h64 : ∀ s ∈ m.sizes, s < 2 ^ 64)
     (hzb : zeroBelow m.sizes = false)
     (hp : ∀ np ∈ parts, PartOkFull sh dim np.1 np.2)
     (hsorted : parts.Pairwise (fun a b => strLt a.1 b.1 = true))
     (hpt : ∀ p ∈ partitions, PartitionOk p)
-    (hmap : mapOutOfRange { mesh := some m, parts := parts, partitions := partitions } = false) :
-    parseMeshFile (printMeshFile sh dim { mesh := some m, parts := parts, partitions := partitions })
-      = .ok sh dim { mesh := some m, parts := parts, partitions := partitions } :=
-  parse_print_node_full sh dim m parts partitions hs hwf h64 hzb hp hsorted hpt hmap
+    (hmap : mapOutOfRange { mesh := some m, parts := parts, partitions := partitions, wdim := wdim } = false) :
+    parseMeshFile (printMeshFile sh dim { mesh := some m, parts := parts, partitions := partitions, wdim := wdim })
+      = .ok sh dim { mesh := some m, parts := parts, partitions := partitions, wdim := wdim } :=
+  parse_print_node_full sh dim wdim m parts partitions hs hwf h64 hzb hp hsorted hpt hmap
+
+/-- The header field the writer prints: `conformal:<shape>:<SHAPE dimension>:<WORLD dimension>` (literally), and
+    semantically: the first line printed for a node with a root mesh scans to a markup whose `mesh` attribute splits
+    at the colons into exactly these four components, the two numbers read back as `dim` and `n.wdim`, and
+    `read_root_markup` returns the mesh type `(sh, dim, n.wdim)` - for all nine supported mesh types. -/
+theorem C11.printed_type_string (sh : Shape) (dim : Nat) (n : Node) (m : Mesh) (hm : n.mesh = some m)
+    (hs : supported sh dim n.wdim = true) :
+    meshTypeStr sh dim n.wdim =
+      "conformal:".toList ++ sh.name ++ ":".toList ++ showNat dim ++ ":".toList ++ showNat n.wdim ∧
+    ∃ (l : Str) (rest : List Str) (mk : Markup) (ty : Str),
+      writeLines sh dim n = l :: rest ∧ scanMarkup l = .ok (some mk) ∧ attrOf mk "mesh" = some ty ∧
+      splitByColon ty = ["conformal".toList, sh.name, showNat dim, showNat n.wdim] ∧
+      readInt (showNat dim) = some (dim : Int) ∧ readInt (showNat n.wdim) = some (n.wdim : Int) ∧
+      ∀ line, rootType line mk = .ok (some (sh, (dim : Int), (n.wdim : Int))) :=
+  ⟨meshTypeStr_eq sh dim n.wdim, FeatModel.C11.printed_type_string sh dim n m hm hs⟩
 
 /-- byte-for-byte clause for the same class: writing the parsed result reproduces the first output -/
-theorem C11.print_parse_print_node_partial (sh : Shape) (dim : Nat) (m : Mesh) (parts : List (Str × Part))
+theorem C11.print_parse_print_node_partial (sh : Shape) (dim wdim : Nat) (m : Mesh) (parts : List (Str × Part))
     (partitions : List Partition)
-    (hs : supported sh dim dim = true) (hwf : m.wf sh dim = true) (h64 : ∀ s ∈ m.sizes, s < 2 ^ 64)
+    (hs : supported sh dim wdim = true) (hwf : m.wf sh dim wdim = true) (h64 : ∀ s ∈ m.sizes, s < 2 ^ 64)
     (hzb : zeroBelow m.sizes = false)
     (hp : ∀ np ∈ parts, PartOkFull sh dim np.1 np.2)
     (hsorted : parts.Pairwise (fun a b => strLt a.1 b.1 = true))
     (hpt : ∀ p ∈ partitions, PartitionOk p)
-    (hmap : mapOutOfRange { mesh := some m, parts := parts, partitions := partitions } = false)
+    (hmap : mapOutOfRange { mesh := some m, parts := parts, partitions := partitions, wdim := wdim } = false)
     (sh' : Shape) (dim' : Nat) (n' : Node)
-    (h : parseMeshFile (printMeshFile sh dim { mesh := some m, parts := parts, partitions := partitions }) = .ok sh' dim' n') :
-    printMeshFile sh' dim' n' = printMeshFile sh dim { mesh := some m, parts := parts, partitions := partitions } :=
-  print_parse_print_node sh dim m parts partitions hs hwf h64 hzb hp hsorted hpt hmap sh' dim' n' h
+    (h : parseMeshFile (printMeshFile sh dim { mesh := some m, parts := parts, partitions := partitions, wdim := wdim }) = .ok sh' dim' n') :
+    printMeshFile sh' dim' n' = printMeshFile sh dim { mesh := some m, parts := parts, partitions := partitions, wdim := wdim } :=
+  print_parse_print_node sh dim wdim m parts partitions hs hwf h64 hzb hp hsorted hpt hmap sh' dim' n' h
 
 /-- a node without root mesh (mesh-part / partition files): the written root markup carries no mesh type, so the
     type-detecting entry point answers `notype`, and the parse with the known type gives the node back -/
-theorem C11.reparse_print_nomesh_partial (sh : Shape) (dim : Nat) (parts : List (Str × Part))
+theorem C11.reparse_print_nomesh_partial (sh : Shape) (dim wdim : Nat) (parts : List (Str × Part))
     (partitions : List Partition) (hdim : dim + 1 < 2 ^ 64)
     (hp : ∀ np ∈ parts, PartOkFull sh dim np.1 np.2)
     (hsorted : parts.Pairwise (fun a b => strLt a.1 b.1 = true))
     (hpt : ∀ p ∈ partitions, PartitionOk p) :
-    parseMeshFile (printMeshFile sh dim { mesh := none, parts := parts, partitions := partitions }) = .notype ∧
-    reparse sh dim (printMeshFile sh dim { mesh := none, parts := parts, partitions := partitions })
-      = .ok sh dim { mesh := none, parts := parts, partitions := partitions } :=
-  reparse_print_nomesh sh dim parts partitions hdim hp hsorted hpt
+    parseMeshFile (printMeshFile sh dim { mesh := none, parts := parts, partitions := partitions, wdim := wdim }) = .notype ∧
+    reparse sh dim wdim (printMeshFile sh dim { mesh := none, parts := parts, partitions := partitions, wdim := wdim })
+      = .ok sh dim { mesh := none, parts := parts, partitions := partitions, wdim := wdim } :=
+  reparse_print_nomesh sh dim wdim parts partitions hdim hp hsorted hpt
 
 /-! ## property maps (INI): `PropertyMap::read ∘ PropertyMap::write = id` -/
 
@@ -239,25 +306,26 @@ theorem C11.ini_roundtrip_bytes (replace : Bool) (es : List (Str × Str)) (f : I
     (iniRead replace (iniWrite (IniRT.treeMap es f))).map iniWrite = some (iniWrite (IniRT.treeMap es f)) :=
   ini_roundtrip_tree_bytes replace es f hes hsorted hf
 
-/-- Charts (Circle and Bezier in 2D, Sphere in 3D): a node with an atlas of well-formed charts (`ChartOk`: non-empty
-    admissible name, kind matching the dimension; circle/sphere: radius ≥ the reader's threshold, non-degenerate
+/-- Charts (Circle and Bezier in world dimension 2, Sphere in world dimension 3): a node with an atlas of well-formed
+    charts (`ChartOk`: non-empty admissible name, kind matching the WORLD dimension `wdim` of the mesh type - as FEAT's
+    `DimensionalChartHelper<world_dim>` -, for all nine supported mesh types, e.g. a Sphere for a surface mesh 2/3; circle/sphere: radius ≥ the reader's threshold, non-degenerate
     circle domain; Bezier: `BezierOk` = at least 2 vertex points, first one without control points, 2 coordinates per
     point, parameters absent or one per vertex point, orientation ±1; sorted by name) is reproduced exactly - chart
     numbers are exact rationals printed as `p/q`, so this is an identity of the printed strings as well.
     `_partial`: mesh parts that link to a chart (`chart="…"`) and the SurfaceMesh / Extrude chart kinds are not covered. -/
-theorem C11.parse_print_node_charts_partial (sh : Shape) (dim : Nat) (m : Mesh) (parts : List (Str × Part))
+theorem C11.parse_print_node_charts_partial (sh : Shape) (dim wdim : Nat) (m : Mesh) (parts : List (Str × Part))
     (partitions : List Partition) (charts : List (Str × Chart))
-    (hs : supported sh dim dim = true) (hwf : m.wf sh dim = true) (h64 : ∀ s ∈ m.sizes, s < 2 ^ 64)
+    (hs : supported sh dim wdim = true) (hwf : m.wf sh dim wdim = true) (h64 : ∀ s ∈ m.sizes, s < 2 ^ 64)
     (hzb : zeroBelow m.sizes = false)
     (hp : ∀ np ∈ parts, PartOkFull sh dim np.1 np.2)
     (hsorted : parts.Pairwise (fun a b => strLt a.1 b.1 = true))
     (hpt : ∀ p ∈ partitions, PartitionOk p)
-    (hmap : mapOutOfRange { mesh := some m, parts := parts, partitions := partitions } = false)
-    (hch : ∀ nc ∈ charts, ChartOk dim nc.1 nc.2)
+    (hmap : mapOutOfRange { mesh := some m, parts := parts, partitions := partitions, wdim := wdim } = false)
+    (hch : ∀ nc ∈ charts, ChartOk wdim nc.1 nc.2)
     (hcs : charts.Pairwise (fun a b => strLt a.1 b.1 = true)) :
-    parseMeshFile (printMeshFile sh dim { mesh := some m, parts := parts, partitions := partitions, charts := charts })
-      = .ok sh dim { mesh := some m, parts := parts, partitions := partitions, charts := charts } :=
-  parse_print_node_charts sh dim m parts partitions charts hs hwf h64 hzb hp hsorted hpt hmap hch hcs
+    parseMeshFile (printMeshFile sh dim { mesh := some m, parts := parts, partitions := partitions, charts := charts, wdim := wdim })
+      = .ok sh dim { mesh := some m, parts := parts, partitions := partitions, charts := charts, wdim := wdim } :=
+  parse_print_node_charts sh dim wdim m parts partitions charts hs hwf h64 hzb hp hsorted hpt hmap hch hcs
 
 /-- malformed chart input is rejected: a midpoint with a wrong number of coordinates -/
 theorem C11.circle_bad_midpoint_rejected (line : Nat) (m : Markup) (ms : Str)
